@@ -115,6 +115,7 @@ def make_fn(sg, occs):
                     conds.append(z3.IsInt(d.z3()) if not d.is_const() else z3.BoolVal(d.cval().denominator == 1))
                     conds.append(z3.And(f_new[i][c].rel(lambda a, b: a >= b), f_new[i][c].rel(lambda a, b: a < b, 1)))
             e.post("positions = chosen rigid motion of the standardized atoms (mod lattice), inside [0,1)", z3.And(*conds), mk("positions"))
+        e.validate_with(lambda env: S.validate_against_real(sg, ds, env, key, f_new, an.get_wyckoff_letters_conventional()))
         e.reach("H05:identity" if key == S.IDENTITY_KEY else "H05:normalizer-applied")
         e.sample({"space_group": sg, "occupation": occ, "chosen": "identity" if key == S.IDENTITY_KEY else [[str(v) for v in r] for r in key[:3]]})
     return fn
@@ -130,7 +131,7 @@ def orbit_bound(sg, tier):
 def run_group(arg):
     sg, tier = arg
     occs = S.occupations(sg, orbit_bound(sg, tier), S.ELEMENTS)
-    st = explore(make_fn(sg, occs), f"H05:sg{sg}", workers=1, timeout_ms=20000, budget_s=3000)
+    st = explore(make_fn(sg, occs), f"H05:sg{sg}", workers=1, timeout_ms=20000, budget_s=3000, validate_every=10)
     return sg, st, len(occs)
 
 
